@@ -226,6 +226,7 @@ class Sim(object):
         self.sched_sig_n = 0
         self.probes = {}
         self.stalled = {}        # tid -> until
+        self._gap_is_skip = True
         self._line_countdown = self._draw_line_gap()
         self.listeners_on_exc = []
         self.opcode_hits = 0
@@ -525,22 +526,30 @@ class Sim(object):
     # ------------------------------------------------------------------
     # tracing: line / opcode pre-emption inside bromelia frames
     # ------------------------------------------------------------------
+    GAP_BLOCK = 4096
+
     def _draw_line_gap(self):
+        """Number of line steps until the next pre-emption decision.  Tape
+        value g in 1..4095 means "pre-empt after g line steps"; 0 means "no
+        pre-emption in the next 4096 line steps" (so zeroing a tape entry
+        removes one pre-emption but keeps later entries meaningful)."""
         p = self.p_line
         if self.tape_in is not None:
-            v = self.choose("gap", 4096)
-            return (1 << 60) if v == 0 else v
-        if p <= 0.0:
+            v = self.choose("gap", self.GAP_BLOCK)
+        elif p <= 0.0:
+            v = 0
             self.tape.append(0)
-            return 1 << 60
-        # geometric gap, capped so that it fits the tape alphabet
-        import math
-        u = self.rng.random()
-        g = int(math.log(1.0 - u) / math.log(1.0 - p)) + 1 if p < 1.0 else 1
-        if g >= 4096:
-            g = 4095
-        self.tape.append(g)
-        return g
+        else:
+            import math
+            u = self.rng.random()
+            g = int(math.log(1.0 - u) / math.log(1.0 - p)) + 1 if p < 1.0 else 1
+            v = g if g < self.GAP_BLOCK else 0
+            self.tape.append(v)
+        if v == 0:
+            self._gap_is_skip = True
+            return self.GAP_BLOCK
+        self._gap_is_skip = False
+        return v
 
     def _classify(self, code):
         fn = code.co_filename
@@ -580,8 +589,9 @@ class Sim(object):
                     n, frame.f_code.co_filename, frame.f_lineno))
             self._line_countdown -= 1
             if self._line_countdown <= 0:
+                skip = self._gap_is_skip
                 self._line_countdown = self._draw_line_gap()
-                if not self.halted and not self.killed:
+                if not skip and not self.halted and not self.killed:
                     r = self._runnable()
                     if len(r) > 1:
                         if event == "opcode":
